@@ -57,7 +57,8 @@ RULE = ("random discrete Bayesian networks (1-6 nodes; chains, forks, colliders,
         "include_latents, partial_samples, show_progress default, virtual_intervention, include_missing / missing_columns, "
         "generate_sample (n_jobs is accepted and ignored by the code); K = kind badcall (later invalid argument, unknown "
         "states / variables / cardinalities -> ValueError / KeyError = model error 6, model unchanged, valid call afterwards); "
-        "L = node / edge / CPD insertion orders, parent order in the CPD, evidence order, hash seeds; M is tools/check.py")
+        "boundary start states -1 / 0 / card-1 / card / card+1 at every position through sample, generate_sample, set_start_state "
+        "and the MarkovChain constructor (kind gibbs_start); L = node / edge / CPD insertion orders, parent order in the CPD, evidence order, hash seeds; M is tools/check.py")
 TRUSTED_BASE = ["numpy.random.choice(a, size, p) draws independent indices with law p (coq/C07/Dist.v `draw`); the "
                 "Mersenne-Twister / seeding of numpy is not modelled",
                 "pandas DataFrame column assignment, boolean filtering, concat/iloc, Series.map; numpy unique/vstack",
@@ -433,6 +434,10 @@ def cases(tier, seed):
         out.append(c)
     for _ in range(3 * mult):
         out.append({"kind": "big", "net": gen_big_net(rng), "oseed": rng.randint(0, 10**9)})
+    # boundary start states of the chains (MarkovChain._check_state): -1, 0, card-1, card, card+1 at every position
+    for _ in range(10 * mult):
+        out.append({"kind": "gibbs_start", "net": gen_net(rng, nmax=4, styles=good, zeros=False, maxcard=3, min_edges=1,
+                                                          str_nodes=True), "oseed": rng.randint(0, 10**9)})
     for k_ in ("forward", "reject", "lw", "simulate", "gibbs"):
         for _ in range(8 * mult):
             c = opt(k_, nmax=4, min_edges=1, str_nodes=True, maxcard=3)
@@ -914,6 +919,8 @@ def run_kind(case, drv, N, model, key, tags, kind):
         return run_badcall(case, drv, N, model, key, tags)
     if kind == "big":
         return run_big(case, drv, N, model, key, tags)
+    if kind == "gibbs_start":
+        return run_gibbs_start(case, drv, N, model, key, tags)
     raise ValueError(kind)
 
 
@@ -1333,6 +1340,82 @@ def run_big(case, drv, N, model, key, tags):
             r["tags"] = tags + ["failed-step=" + op["kind"]]
             return r
     return ok(nontrivial=True, key=key, tags=tags + ["vars-in-one-factor=9"])
+
+
+NEG_FINDING = "markovchain-negative-start-state-accepted"
+
+
+def run_gibbs_start(case, drv, N, model, key, tags):
+    """boundary start states: for every variable position one value out of {-1, 0, card-1, card, card+1} (the others
+    valid), through every route: GibbsSampling.sample / generate_sample / set_start_state and the MarkovChain
+    constructor + MarkovChain.sample.  Verdict of the model (c07_start_ok): ValueError exactly when a value is outside
+    0..card-1; otherwise the chain starts there (row 0 = start) and every value of every row is a state of its column."""
+    from pgmpy.factors.discrete import State
+    from pgmpy.models import MarkovChain
+    from pgmpy.sampling import GibbsSampling
+
+    rng = random.Random(case["oseed"])
+    g0 = GibbsSampling(model)
+    vars_ = [N.id[str(x)] for x in g0.variables]
+    names = [str(N.node[v]) for v in vars_]
+    cards = [N.card[v] for v in vars_]
+    n = len(vars_)
+    checked, neg_accept = 0, []
+
+    def valid_rows(rows):
+        return all(0 <= int(x) < c for r in rows for x, c in zip(r, cards))
+
+    def attempt(route, start):
+        ss = [State(nm, s_) for nm, s_ in zip(names, start)]
+        if route == "sample":
+            df = GibbsSampling(model).sample(start_state=ss, size=2, seed=3, include_latents=True)
+            return [[int(df[nm].iloc[i]) for nm in names] for i in range(len(df))], True
+        if route == "generate":
+            rows = list(GibbsSampling(model).generate_sample(start_state=ss, size=2, seed=3, include_latents=True))
+            return [[int(dict((str(x.var), x.state) for x in r)[nm]) for nm in names] for r in rows], False
+        if route == "set":
+            g = GibbsSampling(model)
+            g.set_start_state(ss)
+            return [[int(dict((str(x.var), x.state) for x in g.state)[nm]) for nm in names]], True
+        mc = MarkovChain(list(names), list(cards), start_state=ss)
+        for nm, c in zip(names, cards):
+            mc.add_transition_model(nm, {i: {j: 1.0 / c for j in range(c)} for i in range(c)})
+        df = mc.sample(size=2, seed=3)
+        return [[int(df[nm].iloc[i]) for nm in names] for i in range(len(df))], True
+
+    for pos in range(n):
+        for val in sorted({-1, 0, cards[pos] - 1, cards[pos], cards[pos] + 1}):
+            start = [rng.randrange(c) for c in cards]
+            start[pos] = val
+            verdict = bool(drv.call("c07_start_ok", [N.sx(model), vars_, start]))
+            for route in ("sample", "generate", "set", "markovchain"):
+                what = None
+                try:
+                    rows, first_is_start = attempt(route, start)
+                    if not verdict:
+                        what = "accepted (returned %r)" % (rows[:2],)
+                    elif first_is_start and rows[0] != start:
+                        what = "row 0 is %r, not the start state" % (rows[0],)
+                    elif not valid_rows(rows):
+                        what = "returned a value that is not a state of its column: %r" % (rows,)
+                except ValueError:
+                    if verdict:
+                        what = "raised ValueError for a valid start state"
+                except KeyError as e:
+                    what = "raised KeyError(%s) instead of %s" % (str(e)[:20], "ValueError" if not verdict else "returning")
+                checked += 1
+                if what is not None:
+                    if val == -1:
+                        neg_accept.append((route, start, what))       # diagnosed narrowly: the value -1 only
+                        continue
+                    return bad("impl!=model", {"what": "%s, start %r (cardinalities %r): %s" % (route, start, cards, what),
+                                               "case": case}, key=key, tags=tags)
+    tags += ["start-states=%d" % checked]
+    if neg_accept:
+        return bad("impl!=model", {"what": "a negative start state is not rejected", "examples": neg_accept[:4],
+                                   "cardinalities": cards, "case": case}, finding=NEG_FINDING, key=key,
+                   tags=tags + ["known:" + NEG_FINDING])
+    return ok(nontrivial=True, key=key, tags=tags)
 
 
 def run_gibbs_seed(case):
